@@ -202,19 +202,23 @@ def _w_c0910(task):
                 except TypeError:
                     hashable = False
                 if hashable and groups and not getattr(W, 'no_cache', False):
-                    n0 = counter[0]
+                    # (judged per binding: the first spelling may or may not be evaluated -- whether two *different* bindings share
+                    # an entry is C10's subject, not C09's -- but no later spelling of the same binding may be)
+                    recomputed = []
                     for b, members in groups.items():
-                        for (a, kw), key in members:
+                        for i, ((a, kw), key) in enumerate(members):
+                            n0 = counter[0]
                             W(*(prefix + a), **dict(kw))
-                    evals = counter[0] - n0
+                            if i and counter[0] != n0:
+                                recomputed.append((members[0][0], (a, kw)))
                     res['counts']['cache_calls'] += sum(len(m) for m in groups.values())
-                    if evals != len(groups) and not any(v['replay'].get('form') == form and v['replay'].get('keymap') == kmname
-                                                        for v in res['violations']):
+                    if recomputed and not any(v['replay'].get('form') == form and v['replay'].get('keymap') == kmname
+                                              for v in res['violations']):
                         res['violations'].append(_v('C09', {'rule': 'second-spelling-recomputed', 'keymap': kmname, 'form': form},
-                                                    '%s [%s] %s: %d distinct bindings but %d evaluations through inf_cache' % (
-                                                        sigtext, form, kmname, len(groups), evals),
+                                                    '%s [%s] %s: %d later spellings of an already answered binding were evaluated again through inf_cache, e.g. %r after %r' % (
+                                                        sigtext, form, kmname, len(recomputed), recomputed[0][1], recomputed[0][0]),
                                                     {'spec': spec, 'form': form, 'keymap': kmname, 'typed': typed,
-                                                     'calls': [m[0][0] for m in groups.values()][:5]}))
+                                                     'calls': list(recomputed[0])}))
             else:   # C10
                 bykey = {}
                 for b, members in groups.items():
@@ -223,7 +227,7 @@ def _w_c0910(task):
                         if fk in bykey and bykey[fk][0] != b:
                             ob, oc = bykey[fk]
                             res['violations'].append(_v('C10', {'rule': 'different-calls-share-key', 'keymap': kmname, 'form': form,
-                                                                'typed': typed},
+                                                                'typed': typed, 'cause': _c10_cause(_m, ob, b, key)},
                                                         '%s [%s] %s: calls %r (binds %r) and %r (binds %r) share key %r' % (
                                                             sigtext, form, kmname, oc, ob, call, b, key),
                                                         {'spec': spec, 'form': form, 'keymap': kmname, 'typed': typed, 'calls': [oc, call]}))
@@ -245,7 +249,7 @@ def _w_c0910(task):
                             res['counts']['cache_calls'] += 1
                             if (typed_repr(got) != typed_repr(want)) if typed else (got != want):
                                 res['violations'].append(_v('C10', {'rule': 'answered-with-other-result', 'keymap': kmname, 'form': form,
-                                                                    'typed': typed},
+                                                                    'typed': typed, 'cause': _c10_cause(_m, got, want, key)},
                                                             '%s [%s] %s: call %r returned %r, function returns %r' % (
                                                                 sigtext, form, kmname, (a, kw), got, want),
                                                             {'spec': spec, 'form': form, 'keymap': kmname, 'typed': typed, 'calls': [(a, kw)]}))
@@ -257,6 +261,30 @@ def _w_c0910(task):
     res['outcomes'] = []
     res['config_summary'] = '%s typed=%s' % (sigtext, typed)
     return res
+
+
+def _c10_cause(m, b1, b2, key):
+    """independent attribution of a shared key to the one recorded cause (KF-flat-stringmap-single-scalar): a flat string
+    keymap hands a lone fast-typed positional to str() bare -- not inside a tuple, where its repr would be used -- so the
+    two bindings differ only in a one-element '*' whose elements have the same str(), and the key is that string"""
+    try:
+        if type(m).__name__ != 'stringmap' or not m.flat or m.typed or getattr(m, 'outer', None):
+            return 'other'
+        d1, d2 = dict(b1), dict(b2)
+        if set(d1) != set(d2) or '*' not in d1:
+            return 'other'
+        if any(d1[k] != d2[k] or type(d1[k]) is not type(d2[k]) for k in d1 if k != '*'):
+            return 'other'
+        s1, s2 = d1['*'], d2['*']
+        if len(s1) != 1 or len(s2) != 1 or dict(d1.get('**', ())):
+            return 'other'
+        x, y = s1[0], s2[0]
+        fast = (int, str, bytes, frozenset, type(None))
+        if type(x) in fast and type(y) in fast and str(x) == str(y) and (key is None or freeze(key) == freeze(str(x)) or isinstance(key, bytes)):
+            return 'str-of-lone-scalar'
+    except Exception:
+        pass
+    return 'other'
 
 
 def _c09_cause(frozen_keys):
